@@ -188,7 +188,8 @@ class Peer(object):
         # names the first id the endpoint hands out: unknown unless that transfer exists and the session is established
         refuse(1, 'refuse-id1', not (self.sent_sess_init and '1' in self.own_tids and 1 not in self.refused_own))
         if own_id is not None:
-            refuse(own_id, 'refuse-own', False)
+            # (once refused, the transfer is over: its id is unknown from then on)
+            refuse(own_id, 'refuse-own', own_id in self.refused_own)
         alpha['sess-term'] = lambda: (dict(type='SESS_TERM', flags=0, reason=0), not self.sent_sess_init)
         # a SESS_TERM marked as reply although this endpoint has not asked for termination: a reply to nothing
         alpha['sess-term-reply'] = lambda: (dict(type='SESS_TERM', flags=tw.TERM_REPLY, reason=0),
@@ -245,6 +246,8 @@ class Peer(object):
                 if msg['flags'] & tw.FLAG_END:
                     self.completed_rx.append(self.open_rx['data'])
                     self.open_rx = None
+        if msg['type'] == 'XFER_REFUSE' and not oop and self.sent_sess_init and not was_closed:
+            self.refused_own.add(msg['transfer_id'])
         if msg['type'] in ('contact', 'RAW'):
             self.sent_contact = True
         if msg['type'] == 'SESS_INIT' and self.sent_contact and not was_closed:
@@ -370,6 +373,8 @@ def run_sequence(role, state, names, obs, modulate=False):
                 refused = set(str(rec['msg']['transfer_id']) for rec in peer.injected if rec['msg']['type'] == 'XFER_REFUSE' and not rec['out_of_place'])
                 for tid in peer.own_tids:
                     res = fins.get(tid)
+                    if res is not None and len(res) > 1:
+                        problems.append(('own-transfer', 'own transfer %s was reported finished %d times (%s)' % (tid, len(res), res), {}))
                     if tid in refused:
                         continue
                     if not (peer.closed() or peer.terminating()) and res != ['success']:
